@@ -304,6 +304,11 @@ def check(P, R):
     check_copy_owns_cookies(P, R)
     check_cookie_memo_invalidation(P, R, 'C15.e')
     check_cookie_transfer(P, R, 'C15.f')
+    check_cookies_emitted(P, R, 'C15.f')
+    check_no_reset_after_user_code(P, R, 'C15.f')
+    from ..report import run_premise
+    from . import c09 as _c09
+    run_premise(R, _c09, P, {'C09.c'}, 'C15.f', 'the cookies of a returned / raised response are sent as they were set on it')
 
 
 def check_copy_owns_cookies(P, R):
@@ -648,6 +653,61 @@ def check_cookie_memo_invalidation(P, R, rid, why='a cookie is read back from th
     ok = 'cookies' in ld[0]
     R.ob(rid, oc, oc.node, ok, text='a changed HTTP_* key drops the `cookies` memo', detail='' if ok else
          'the change listener does not drop the cached cookie jar when a header key changes', why=why, key_extra='listener-cookies')
+
+
+def check_cookies_emitted(P, R, rid):
+    """whatever the status, the header list handed to the server contains the Set-Cookie lines of the jar: every return of headerlist lies behind the
+    statement that consults the jar"""
+    f = P.func('ombott.response:BaseResponse.headerlist')
+    g = f.cfg
+    jar_nodes = [n for n in g.nodes if n.ast is not None and n.kind in ('test', 'for', 'stmt') and any(
+        isinstance(x, ast.Attribute) and x.attr == '_cookies' and src(x.value) == 'self' for x in
+        ([n.ast.iter] if n.kind == 'for' else [n.ast]) for x in ast.walk(x))]
+    emits = [c for c in ast.walk(f.node) if isinstance(c, ast.Constant) and c.value == 'Set-Cookie']
+    R.require(jar_nodes and emits, 'headerlist: the Set-Cookie emission from self._cookies was not found')
+    rets = [n for n in g.nodes if n.kind == 'stmt' and isinstance(n.ast, ast.Return) and n in g.reachable()]
+    R.require(rets, 'headerlist: no return')
+    for r in rets:
+        if r in jar_nodes:
+            ok = True
+        else:
+            ok = g.must_pass(g.entry, r, jar_nodes, labels_skip=('exc',))
+        R.ob(rid, f, r.ast, ok, text=f'`{short(r.ast)}` lies behind the emission of the cookie jar', detail='' if ok else
+             f'`{short(r.ast)}` is reached on a path that never looks at self._cookies: for the responses taking it (a status with a bad_headers entry: 204, 304) the '
+             f'cookies set on the response are not sent, so the client never returns them',
+             why='a cookie set on a response is read back from the request that returns it', key_extra='jar-before-return')
+
+
+def check_no_reset_after_user_code(P, R, rid):
+    """the per-thread response is re-initialised before any hook or handler runs, never after: a reset behind them (on an error path, say) discards the cookies
+    they set, and the answer that is sent - error page included - goes out without them"""
+    from ..report import Sub
+    from . import c09
+
+    class _Quiet:
+        def __init__(self, R_):
+            self._R = R_
+
+        def ob(self, *a, **kw):
+            return None
+
+        def __getattr__(self, k):
+            return getattr(self._R, k)
+    h, req_init, resp_init = c09.check_init_dominance(P, _Quiet(R), 'C09.a')
+    g = h.cfg
+    user = [n for n in g.nodes if n.ast is not None and n.kind == 'stmt' and any(
+        isinstance(c, ast.Call) and ((call_attr(c) == 'emit') or call_attr(c) == 'handler') for c in ast.walk(n.ast))]
+    R.require(user, '_handle: the calls that run hooks / the handler were not found')
+    all_resets = [g.node_of_stmt(c)[0] for c in walk_shallow(h.node) if isinstance(c, ast.Call) and call_attr(c) in ('__init__', 'clear', 'reset')
+                  and isinstance(c.func.value, (ast.Name, ast.Attribute)) and
+                  ({src(d.value) for d in h.rd.root_defs(g.node_of_stmt(c)[0], c.func.value.id) if d.value is not None} == {'self.response'}
+                   if isinstance(c.func.value, ast.Name) else src(c.func.value) == 'self.response')]
+    R.require(all_resets, '_handle: no reset of the per-thread response found')
+    for n in all_resets:
+        after = any(g.can_reach(u, n) for u in user)
+        R.ob(rid, h, n.ast, not after, text=f'`{short(n.ast)}` runs before any hook or handler', detail='' if not after else
+             f'`{short(n.ast)}` can run after hooks / the handler ran: the cookies they put on the response (set_cookie, delete_cookie) are wiped, and the answer that '
+             f'is sent for this request goes out without them', why='a cookie set on a response is read back from the request that returns it', key_extra='reset-after-user-code')
 
 
 def check_cookie_transfer(P, R, rid):
